@@ -10,10 +10,16 @@ open World
 
 /-! ### settlement -/
 
+/-- `self.order.number_of_dead_heat_winners or 1` -/
+def deadHeatCount (o : Order) : Nat :=
+  match o.deadHeat with
+  | some k => if k = 0 then 1 else k
+  | none => 1
+
 /-- `SimulatedOrder.profit` -/
 def simProfit (o : Order) : Rat :=
   let s := o.sim
-  let n : Nat := match o.deadHeat with | some k => if k = 0 then 1 else k | none => 1
+  let n : Nat := deadHeatCount o
   if o.marketType = some "EACH_WAY" then
     let divisor := o.ewDivisor.getD 1
     let win := s.sizeMatched * (s.avgPrice - 1)
@@ -28,7 +34,8 @@ def simProfit (o : Order) : Rat :=
     | none => 0
     | some lr =>
       let price := s.avgPrice
-      if (s.side = .back ∧ lr < price) ∨ (s.side = .lay ∧ price < lr) then round2 (s.sizeMatched * (2 - 1))
+      if price = lr then 0     -- stake returned (fix c11f0ea)
+      else if (s.side = .back ∧ lr < price) ∨ (s.side = .lay ∧ price < lr) then round2 (s.sizeMatched * (2 - 1))
       else -s.sizeMatched
   else
     match o.runnerStatus with
